@@ -40,6 +40,7 @@ class CheckClass:
         self.pop_methods = {}     # method name -> attr
         self.call_detail = None
         self.call_info = None
+        self.merges = False    # the append helper merges a same-kind operand
 
     def __repr__(self):
         return '<CheckClass %s %s>' % (self.qual, self.sem)
@@ -283,6 +284,44 @@ def classify_helper(finfo):
                 c.args[0].id == params[0] and isinstance(
                     body[1].value, ast.Name) and body[1].value.id == 'self':
             return ('append', _self_attr(c.func.value))
+    if len(body) == 2 and isinstance(body[0], ast.If) and isinstance(
+            body[1], ast.Return) and isinstance(body[1].value, ast.Name) \
+            and body[1].value.id == 'self' and len(params) == 1:
+        # if isinstance(p, <own class>): self.A.extend(p.A)
+        # else: self.A.append(p)            (either branch order)
+        node = body[0]
+        t = node.test
+        neg = False
+        if isinstance(t, ast.UnaryOp) and isinstance(t.op, ast.Not):
+            t, neg = t.operand, True
+        if isinstance(t, ast.Call) and isinstance(t.func, ast.Name) and \
+                t.func.id == 'isinstance' and len(t.args) == 2 and \
+                isinstance(t.args[0], ast.Name) and \
+                t.args[0].id == params[0] and len(node.body) == 1 and \
+                len(node.orelse) == 1:
+            own = ast.unparse(t.args[1]) in (
+                finfo.cls.name if finfo.cls else '', 'type(self)',
+                'self.__class__')
+            yes, no = (node.orelse[0], node.body[0]) if neg else (
+                node.body[0], node.orelse[0])
+
+            def mc(st, meth):
+                if isinstance(st, ast.Expr) and isinstance(st.value,
+                                                           ast.Call):
+                    c = st.value
+                    if isinstance(c.func, ast.Attribute) and \
+                            c.func.attr == meth and _self_attr(
+                                c.func.value) and len(c.args) == 1:
+                        return _self_attr(c.func.value), c.args[0]
+                return None, None
+            a1, x1 = mc(yes, 'extend')
+            a2, x2 = mc(no, 'append')
+            if own and a1 and a1 == a2 and isinstance(
+                    x1, ast.Attribute) and isinstance(
+                        x1.value, ast.Name) and x1.value.id == params[0] \
+                    and x1.attr == a1 and isinstance(x2, ast.Name) and \
+                    x2.id == params[0]:
+                return ('append-merge', a1)
     if len(body) == 2 and isinstance(body[0], ast.Assign) and isinstance(
             body[1], ast.Return) and not params:
         a = body[0]
@@ -341,8 +380,10 @@ def check_classes(prog):
             if mname.startswith('__'):
                 continue
             h = classify_helper(ci.methods[mname])
-            if h and h[0] == 'append':
+            if h and h[0] in ('append', 'append-merge'):
                 cc.append_methods[mname] = h[1]
+                if h[0] == 'append-merge':
+                    cc.merges = True
             elif h and h[0] == 'pop':
                 cc.pop_methods[mname] = h[1]
         out[q] = cc
@@ -637,45 +678,50 @@ class Stuck(Exception):
     would raise AttributeError/TypeError at parse time)."""
 
 
-def apply_term(t, args):
+def apply_term(t, args, modes=None):
     k = t[0]
     if k == 'P':
         return args[t[1]]
     if k == 'new':
         if t[1] == 'not':
-            return ('not', apply_term(t[2][0], args))
+            return ('not', apply_term(t[2][0], args, modes))
         if t[1] == 'ident':
-            return apply_term(t[2][0], args)
+            return apply_term(t[2][0], args, modes)
         if t[1] in ('true', 'false'):
             return (t[1],)
-        return (t[1], tuple(apply_term(x, args) for x in t[2]))
+        return (t[1], tuple(apply_term(x, args, modes) for x in t[2]))
     if k == 'add':
-        base = apply_term(t[1], args)
+        base = apply_term(t[1], args, modes)
         if base[0] not in ('and', 'or'):
             raise Stuck('add on %s' % (base[0],))
-        return (base[0], base[1] + (apply_term(t[2], args),))
+        x = apply_term(t[2], args, modes)
+        if modes and modes.get(base[0]) and x[0] == base[0]:
+            # the append helper merges an operand of its own kind
+            return (base[0], base[1] + x[1])
+        return (base[0], base[1] + (x,))
     if k == 'poprest':
-        base = apply_term(t[1], args)
+        base = apply_term(t[1], args, modes)
         if base[0] not in ('and', 'or') or not base[1]:
             raise Stuck('pop on %s' % (base[0],))
         return (base[0], base[1][:-1])
     if k == 'poplast':
-        base = apply_term(t[1], args)
+        base = apply_term(t[1], args, modes)
         if base[0] not in ('and', 'or') or not base[1]:
             raise Stuck('pop on %s' % (base[0],))
         return base[1][-1]
     if k == 'ifinst':
-        subj = apply_term(t[1], args)
-        return apply_term(t[3] if subj[0] == t[2] else t[4], args)
+        subj = apply_term(t[1], args, modes)
+        return apply_term(t[3] if subj[0] == t[2] else t[4], args, modes)
     raise Stuck('bad term %r' % (t,))
 
 
 class TableModel:
     """Greedy shift-reduce automaton parameterised by the extracted table."""
 
-    def __init__(self, table, effects):
+    def __init__(self, table, effects, modes=None):
         self.table = [(r.pattern, r) for r in table]
         self.effects = effects       # method name -> [(kind, term)]
+        self.modes = modes or {}
         self.maxlen = max(len(p) for p, _ in self.table)
 
     def reduce(self, toks, vals, trace=None):
@@ -690,7 +736,7 @@ class TableModel:
                 if n and len(toks) >= n and toks[-n:] == pat:
                     eff = self.effects[r.method.name]
                     args = vals[-n:]
-                    new = [(k, apply_term(t, args)) for k, t in eff]
+                    new = [(k, apply_term(t, args, self.modes)) for k, t in eff]
                     toks = toks[:-n] + tuple(k for k, _ in new)
                     vals = vals[:-n] + tuple(v for _, v in new)
                     if trace is not None:
